@@ -1,7 +1,8 @@
 """C19 - dispatch block objects: cancel, wait and notify follow the execution.
 (A) TLC: spec/Block.tla (one action per shared-memory access of dispatch_block_create/perform/cancel/
-    testcancel/wait/notify and the three invoke paths; private group and queues abstract, see the module
-    header for the assume/guarantee split), all interleavings of 3 client threads x bounded calls, in
+    testcancel/wait/notify and the invoke paths: direct, sync, async consuming (dispatch_async / group_async) and
+    async NON-consuming (dispatch_after with a future deadline, block object as a timer source's event handler);
+    private group and queues abstract, see the module header for the assume/guarantee split), all interleavings of 3 client threads x bounded calls, in
     scenario families (wait-focused, notify-focused, executed-twice, perform, liveness) + spec mutants.
 (B) trace validation: recorded executions of the real code (harness/drv_block.c on the hooked build) vs
     spec/BlockTrace.tla, every atomic on dbpd_atomic_flags / dbpd_performed / dbpd_queue and the private
@@ -15,11 +16,11 @@ PROP = "C19"
 SPEC_TLA = "Block.tla"
 TSPEC, TCFG = "BlockTrace.tla", "BlockTrace.cfg"
 
-QUICK_CFGS = [("Block_qa.cfg", 900), ("Block_qb.cfg", 900), ("Block_qc.cfg", 600), ("Block_qp.cfg", 600),
-              ("Block_ql.cfg", 900)]
+QUICK_CFGS = [("Block_qn.cfg", 900), ("Block_qa.cfg", 900), ("Block_qb.cfg", 900), ("Block_qc.cfg", 600),
+              ("Block_qp.cfg", 600), ("Block_ql.cfg", 900)]
 # longest first (the liveness run is single-threaded in its temporal part)
 THOROUGH_CFGS = [("Block_tl.cfg", 3000), ("Block_tf.cfg", 3000), ("Block_tc.cfg", 3000), ("Block_tb.cfg", 3000),
-                 ("Block_ta.cfg", 3000), ("Block_tg.cfg", 3000)]
+                 ("Block_ta.cfg", 3000), ("Block_tn.cfg", 3000), ("Block_tg.cfg", 3000)]
 
 # (mutant, base config, invariants that state the broken part of the property, what it models)
 MUTANTS = [
@@ -35,6 +36,11 @@ MUTANTS = [
      "a cancelled block object does not complete for waiters and notifiers"),
     ("wait_no_group", "Block_qa.cfg", "WaitZeroOnlyAfterCompletion",
      "dispatch_block_wait returns 0 without consulting the group"),
+    ("nonconsuming_invoke_ignores_cancel", "Block_qn.cfg", "CancelledNeverRuns",
+     "only the consuming variant of _dispatch_block_async_invoke2 tests DBF_CANCELED: a cancelled block object passed to "
+     "dispatch_after / installed as a source's event handler still runs its body"),
+    ("nonconsuming_invoke_releases", "Block_qn.cfg", "BlockRefBalanced",
+     "the non-consuming invoke gives back the copy of the block object that the source still owns"),
 ]
 
 
@@ -59,7 +65,7 @@ def _mut_cfg(mut, base, invs):
 
 def _model_jobs(tier):
     cfgs = QUICK_CFGS if tier == "quick" else THOROUGH_CFGS + QUICK_CFGS
-    big = {"Block_ta.cfg", "Block_tb.cfg", "Block_tc.cfg", "Block_tf.cfg"}
+    big = {"Block_ta.cfg", "Block_tb.cfg", "Block_tc.cfg", "Block_tf.cfg", "Block_tn.cfg"}
     jobs = []
     for cfg, to in cfgs:
         jobs.append(("model", cfg, lambda cfg=cfg, to=to: tlc_must_pass(
@@ -111,6 +117,19 @@ def _stats(path, c):
         if cfg["barrier"]:
             c["flag_BARRIER"] += 1
         canc = bs = be = sub = lv = None
+        timer = any(r["e"] == "SubmitCall" and r["api"] in ("after", "handler") for r in e)
+        if timer and cfg["mode"] == "obs":
+            # position of the cancel relative to the timer (witnessed by the clock: nd = 1 on the CancelRet)
+            crs = [r for r in e if r["e"] == "CancelRet"]
+            if not crs:
+                c["timer_started_never_cancelled"] += 1
+            elif any(r.get("nd") == 1 for r in crs):
+                c["timer_started_cancelled_before_due"] += 1
+            else:
+                c["timer_started_cancelled_at_or_after_due"] += 1
+            for r in e:
+                if r["e"] in ("WaitCall", "NotifyCall"):
+                    c["timer_started_" + r["e"][:-4].lower()] += 1
         for i, r in enumerate(e):
             n = r["e"]
             if n == "AF" and r["op"] == "or" and r["site"].startswith("dispatch_block_cancel") and canc is None:
@@ -318,7 +337,7 @@ def _context(r):
 
 def _trace_jobs(tier, seed):
     drv = build_driver("drv_block")
-    runs, execs = (6, 60) if tier == "quick" else (40, 100)
+    runs, execs = (6, 80) if tier == "quick" else (40, 100)
     d = rundir(PROP)
     jobs = []
     for i in range(runs):
@@ -363,6 +382,10 @@ def _trace_collect(v, results):
             v.samples.append({"trace": os.path.basename(tr), "records": r.tracelen,
                               "excerpt": open(tr).read().splitlines()[0:14]})
     v.notes["recorded_executions"] = dict(sorted(stats.items()))
+    if stats.get("executions", 0) >= 200 and not (stats.get("api_after") and stats.get("api_handler")
+                                                     and stats.get("timer_started_cancelled_before_due")):
+        raise Broken("the driver never exercised the non-consuming invoke (dispatch_after / source event handler) "
+                     "with a cancel before the timer was due: %s" % dict(stats))
     v.notes["driver_wall_s"] = round(sum(x.get("t_drv", 0) for x in results), 1)
     v.notes["trace_validation_wall_s"] = round(sum(x.get("t_val", 0) for x in results), 1)
     log("  traces: %d validated, %d executions" % (v.traces, stats.get("executions", 0)))
